@@ -57,6 +57,40 @@ def is_err_arm(value):
     return bool(value) and value[0] == "call" and norm_path(value[1]) == "Err"
 
 
+def variant_map_mir(prog, fn):
+    """{variant name: description of the value returned for it} for a function `fn(v: Enum) -> value`, read off the MIR: the returned value
+    (or the tuple component that is returned) is a merge of per-arm values, and each arm's definition block is dominated by exactly one edge
+    of the switch on the parameter's discriminant.  None when the function does not have that shape.  Helpers new to the tree are inlined, so
+    `u16::from(v)` -> `v.code()` -> `v.parts().0` over one shared `match` reads like the table it replaced."""
+    from . import core
+    b = prog.bodies.get(fn)
+    if b is None:
+        return None
+    d = core.describe(prog, b, 0)
+    idx = None
+    for _ in range(3):
+        if isinstance(d, tuple) and d[0] == "field" and isinstance(d[1], tuple) and isinstance(d[2], int) and idx is None and d[1][0] == "multi":
+            idx, d = d[2], d[1]
+        elif isinstance(d, tuple) and d[0] == "call" and core.re.search(r"(::|>::)(into|from|clone|deref|as_ref)$", d[1]) and d[2]:
+            d = d[2][0]
+        else:
+            break
+    if not (isinstance(d, tuple) and d[0] == "multi" and len(d) > 4 and len(d[1]) == len(d[4])):
+        return None
+    out = {}
+    for alt, db in zip(d[1], d[4]):
+        if idx is not None:
+            if not (isinstance(alt, tuple) and alt[0] == "tuple" and idx < len(alt[1])):
+                return None
+            alt = alt[1][idx]
+        labs = [lab for s_, lab, gd, info in core.guards_dominating(prog, b, db)
+                if info and info.get("kind") == "enum" and info.get("src") is not None and isinstance(gd, tuple) and core.desc_contains(gd, lambda y: y[0] == "param" and y[1] == 1)]
+        if len(labs) != 1 or labs[0] in out:
+            return None
+        out[labs[0]] = alt
+    return out
+
+
 def scrutinee_chain(m):
     """Method names applied on the way from the base expression to the scrutinee, and the base."""
     e = hir_strip(m["scrut"])
